@@ -19,9 +19,15 @@ ExitIsMax == R.exit = Max({R.single_exit[j] : j \in 1 .. Len(R.order)})
 (* per-file diagnostics are those of the single-file runs *)
 ReportsPerFile == \A j \in 1 .. Len(R.order) : R.diag[j] = R.single_diag[j]
 
-Names == {"Functional", "ExitIsMax", "ReportsPerFile"}
+(* what an invocation prints is the union (as a multiset of per-file sections: stdout     *)
+(* sections, json records, diff blocks) of what each of its inputs prints alone -- also   *)
+(* when the same path is reached more than once (named twice, or both as a root and as a  *)
+(* module of another root).  sections / single_sections are sorted lists of path#hash.   *)
+SectionsAreUnion == R.sections = R.single_sections
+
+Names == {"Functional", "ExitIsMax", "ReportsPerFile", "SectionsAreUnion"}
 Holds(n) == CASE n = "Functional" -> Functional [] n = "ExitIsMax" -> ExitIsMax
-              [] n = "ReportsPerFile" -> ReportsPerFile
+              [] n = "ReportsPerFile" -> ReportsPerFile [] n = "SectionsAreUnion" -> SectionsAreUnion
 ReportInv ==
   LET F == {n \in Names : ~Holds(n)}
   IN F = {} \/ PrintT(ToJson([tag |-> "FAIL", l |-> l, fails |-> F]))
